@@ -18,7 +18,8 @@ Inductive obs :=
 | ODisconnect (c : N)
 | OCloseCall | OCancel
 | OCloseReturn (handlers : N) (* close()/Run returned; client-handler goroutines alive at that moment *)
-| OQuiesce                    (* the harness stopped acting and waited: nothing more happens *)
+| OQuiesce                    (* the harness stopped acting and recording; says nothing about the server's state:
+                                 clause 11 of Check.v is evaluated on the receptions recorded so far *)
 | OSignal (n : N)             (* the watcher logged "broadcasting update to n clients" (printed by broadcast
                                  under wsclientsMu, after storing w.res, before the signalling loop) *)
 | OPoll.                      (* 10 s of the session have passed: watchLoop's poll ticker may request a compile *)
@@ -228,7 +229,7 @@ Definition obs_step (o : obs) (x : cfg) : list cfg :=
   | OCloseCall => via CloseCall
   | OCancel => via Cancel
   | OCloseReturn _ => via CloseReturn
-  | OQuiesce => if quiescent s then [x] else []
+  | OQuiesce => [x]
   | OSignal n => if count_registered s =? n then via Signal else []
   | OPoll => [(st x, tr x, S (polls x))]
   end.
@@ -319,7 +320,7 @@ Fixpoint olist_eqb (a b : list obs) : bool :=
 Definition ends_quiescent (h : list obs) : bool :=
   match rev h with OQuiesce :: _ => true | _ => false end.
 
-(* the witness really is a run of the model with the observed projection (and ends quiescent if claimed) *)
+(* the witness really is a run of the model with the observed projection *)
 Definition validate (h : list obs) (w : cfg) : bool :=
   match project init (rev (tr w)) with
   | Some (sf, os) =>
@@ -327,6 +328,5 @@ Definition validate (h : list obs) (w : cfg) : bool :=
       && state_eqb sf (st w)
       && Nat.leb (length (filter (fun l => match l with ExtRequest => true | _ => false end) (tr w)))
                  (length (filter (fun o => match o with OPoll => true | _ => false end) h))
-      && (if ends_quiescent h then quiescent sf else true)
   | None => false
   end.
